@@ -182,3 +182,675 @@ Section Result.
     - intros V. apply (H3 V). reflexivity.
   Qed.
 End Result.
+
+(* ------------------------------------------------------------------ *)
+(* (2) agreement; (3) who is in QUAL                                    *)
+Section Qual.
+  Variable q : Z.
+  Notation F := (zq q).
+
+  Definition idxs (n : Z) : list Z := map Z.of_nat (seq 0 (Z.to_nat n)).
+
+  Lemma in_idxs n i : In i (idxs n) <-> 0 <= i < n.
+  Proof.
+    unfold idxs. rewrite in_map_iff. split.
+    - intros (k & <- & I). apply in_seq in I. lia.
+    - intros H. exists (Z.to_nat i). split; [lia|]. apply in_seq. lia.
+  Qed.
+
+  (* the public part of an aggregator: recorded responses, bad-dealer flag, threshold *)
+  Definition agg_pub (a : agg q) : list (Z * bool) * bool * Z := (a_resps a, a_bad a, a_t a).
+
+  Lemma deal_certified_pub n (a b : agg q) : agg_pub a = agg_pub b -> deal_certified q n a = deal_certified q n b.
+  Proof. destruct a, b. unfold agg_pub. cbn. intros H. inversion H; subst. reflexivity. Qed.
+
+  (* public view of a node: per dealer, the public part of its aggregator,
+     whether a complaint against it is pending, its stored secret commitments *)
+  Definition rview (n : Z) (s : rst q) :=
+    map (fun i => (option_map agg_pub (lookb i (r_ver s)), has_pend i (r_pend s), lookb i (r_commits s))) (idxs n).
+
+  Lemma map_eq_in {A B} (f g : A -> B) : forall l, map f l = map g l -> forall x, In x l -> f x = g x.
+  Proof. induction l as [|a l IH]; intros H x I; [destruct I|]. cbn in H. inversion H. destruct I as [<-|I]; auto. Qed.
+
+  Lemma qual_filter n s : qual q n s = filter (fun i => match lookb i (r_ver s) with
+                                                        | Some a => deal_certified q n a && negb (has_pend i (r_pend s))
+                                                        | None => false end) (idxs n).
+  Proof. reflexivity. Qed.
+
+  Theorem qual_view n (s1 s2 : rst q) : rview n s1 = rview n s2 -> qual q n s1 = qual q n s2.
+  Proof.
+    intros V. rewrite !qual_filter. apply filter_ext_in. intros i I.
+    pose proof (map_eq_in _ _ _ V i I) as E. cbn in E. inversion E as [[E1 E2 E3]]. rewrite E2.
+    destruct (lookb i (r_ver s1)) as [a|], (lookb i (r_ver s2)) as [b|]; cbn in E1; try discriminate; [|reflexivity].
+    assert (E1' : agg_pub a = agg_pub b) by congruence. rewrite (deal_certified_pub n a b E1'). reflexivity.
+  Qed.
+
+  Lemma rfold_view (s1 s2 : rst q) : forall l pub0 sh1 sh2 pub1 sh1' pub2 sh2',
+    (forall i, In i l -> lookb i (r_commits s1) = lookb i (r_commits s2)) ->
+    fold_left (rfold q s1) l (Some (pub0, sh1)) = Some (pub1, sh1') ->
+    fold_left (rfold q s2) l (Some (pub0, sh2)) = Some (pub2, sh2') ->
+    pub1 = pub2.
+  Proof.
+    induction l as [|i l IH]; intros pub0 sh1 sh2 pub1 sh1' pub2 sh2' C H1 H2.
+    - cbn in *. congruence.
+    - cbn [fold_left] in H1, H2. unfold rfold at 2 in H1. unfold rfold at 2 in H2.
+      rewrite <- (C i (or_introl eq_refl)) in H2.
+      destruct (lookb i (r_ver s1)) as [a1|]; [|rewrite rfold_none in H1; discriminate].
+      destruct (lookb i (r_ver s2)) as [a2|]; [|rewrite rfold_none in H2; discriminate].
+      destruct (lookb i (r_commits s1)) as [p|]; [|rewrite rfold_none in H1; discriminate].
+      assert (C' : forall j, In j l -> lookb j (r_commits s1) = lookb j (r_commits s2)) by (intros j I; apply C; right; exact I).
+      destruct pub0 as [p0|].
+      + destruct (Nat.eqb (length p0) (length p)); [|rewrite rfold_none in H1; discriminate]. eapply IH; eassumption.
+      + eapply IH; eassumption.
+  Qed.
+
+  (* two nodes with the same public view that both complete output the same
+     QUAL and the same commitment polynomial (their shares differ, of course) *)
+  Theorem rabin_agreement n t (s1 s2 : rst q) p1 sh1 p2 sh2 :
+    rview n s1 = rview n s2 ->
+    dist_key_share q n t s1 = Some (p1, sh1) -> dist_key_share q n t s2 = Some (p2, sh2) ->
+    qual q n s1 = qual q n s2 /\ p1 = p2.
+  Proof.
+    intros V H1 H2. pose proof (qual_view n s1 s2 V) as Q. split; [exact Q|].
+    unfold dist_key_share in H1, H2. rewrite <- Q in H2.
+    destruct (Z.of_nat (length (qual q n s1)) <? t); [discriminate|].
+    fold (rfold q s1) in H1. fold (rfold q s2) in H2.
+    destruct (fold_left (rfold q s1) (qual q n s1) (Some (None, zzero))) as [[[pp1|] ss1]|] eqn:E1; try discriminate.
+    destruct (fold_left (rfold q s2) (qual q n s1) (Some (None, zzero))) as [[[pp2|] ss2]|] eqn:E2; try discriminate.
+    inversion H1; inversion H2; subst.
+    assert (E : Some p1 = Some p2); [|inversion E; reflexivity].
+    eapply (rfold_view s1 s2); [|exact E1|exact E2].
+    intros i I. rewrite qual_filter in I. apply filter_In in I. destruct I as [I _].
+    pose proof (map_eq_in _ _ _ V i I) as E. cbn beta in E. congruence.
+  Qed.
+
+  (* membership in QUAL *)
+  Theorem in_qual_iff n (s : rst q) i :
+    In i (qual q n s) <->
+    0 <= i < n /\ exists a, lookb i (r_ver s) = Some a /\ deal_certified q n a = true /\ has_pend i (r_pend s) = false.
+  Proof.
+    rewrite qual_filter, filter_In, in_idxs. split.
+    - intros [R H]. split; [exact R|]. destruct (lookb i (r_ver s)) as [a|]; [|discriminate].
+      apply andb_true_iff in H. destruct H as [H1 H2]. apply negb_true_iff in H2. exists a. auto.
+    - intros [R (a & -> & H1 & H2)]. split; [exact R|]. rewrite H1, H2. reflexivity.
+  Qed.
+
+  Lemma has_pend_in d v (l : list (Z * Z)) : In (d, v) l -> has_pend d l = true.
+  Proof. intros I. unfold has_pend. apply existsb_exists. exists (d, v). split; [exact I|apply Z.eqb_refl]. Qed.
+
+  (* a dealer against whom a complaint is pending is not in QUAL ... *)
+  Theorem pending_complaint_disqualifies n (s : rst q) d v : In (d, v) (r_pend s) -> ~ In d (qual q n s).
+  Proof. intros I H. apply in_qual_iff in H. destruct H as (_ & a & _ & _ & HP). rewrite (has_pend_in d v _ I) in HP. discriminate. Qed.
+
+  (* ... nor is a dealer flagged bad by an invalid justification *)
+  Theorem bad_dealer_disqualified n (s : rst q) d a : lookb d (r_ver s) = Some a -> a_bad a = true -> ~ In d (qual q n s).
+  Proof.
+    intros L B H. apply in_qual_iff in H. destruct H as (_ & a' & L' & DC & _). rewrite L in L'. inversion L'; subst a'.
+    unfold deal_certified in DC. rewrite B in DC. rewrite andb_false_r in DC. discriminate.
+  Qed.
+
+  (* a dealer whose deal every participant approved (complaints that were
+     validly justified count as approvals) is in QUAL *)
+  Definition all_approved (n : Z) (a : agg q) : Prop := forall i, 0 <= i < n -> lookb i (a_resps a) = Some true.
+
+  Lemma approvals_all n (a : agg q) : all_approved n a -> n <= approvals q a.
+  Proof.
+    intros H. unfold approvals.
+    set (L := map (fun i => (i, true)) (idxs n)).
+    assert (LL : Z.of_nat (length L) = Z.max 0 n).
+    { unfold L, idxs. rewrite !map_length, seq_length. lia. }
+    assert (NL : NoDup L).
+    { unfold L, idxs. rewrite map_map. apply FinFun.Injective_map_NoDup; [|apply seq_NoDup].
+      intros x y E. inversion E. lia. }
+    assert (IL : incl L (filter (fun e : Z * bool => snd e) (a_resps a))).
+    { intros e I. unfold L in I. apply in_map_iff in I. destruct I as (i & <- & I). apply in_idxs in I.
+      apply filter_In. split; [apply lookb_some_in, H; exact I|reflexivity]. }
+    pose proof (NoDup_incl_length NL IL). lia.
+  Qed.
+
+  Theorem approved_dealer_in_qual n (s : rst q) d a :
+    0 <= d < n -> lookb d (r_ver s) = Some a -> all_approved n a -> a_t a <= n -> a_bad a = false ->
+    has_pend d (r_pend s) = false -> In d (qual q n s).
+  Proof.
+    intros R L AA T B P. apply in_qual_iff. split; [exact R|]. exists a. repeat split; auto.
+    unfold deal_certified, enough_approvals. rewrite B. cbn [negb]. rewrite andb_true_r. apply andb_true_iff. split.
+    - apply Z.geb_le. pose proof (approvals_all n a AA). lia.
+    - unfold all_responded. apply forallb_forall. intros k I. apply in_seq in I. rewrite AA by lia. reflexivity.
+  Qed.
+End Qual.
+
+(* ------------------------------------------------------------------ *)
+(* (4) along a run                                                      *)
+Section Run.
+  Variable q : Z.
+  Notation F := (zq q).
+  Variables n t me : Z.
+
+  Definition rstep (s : rst q) (k : rcall q) : rst q := fst (rabin_step q n t me s k).
+  Definition rexec (s : rst q) (ks : list (rcall q)) : rst q := fold_left rstep ks s.
+
+  (* what never changes / only grows in an aggregator *)
+  Definition agg_pres (a a' : agg q) : Prop :=
+    a_sec a' = a_sec a /\ a_t a' = a_t a /\ (a_bad a = true -> a_bad a' = true).
+
+  Lemma agg_pres_refl a : agg_pres a a.
+  Proof. repeat split; auto. Qed.
+  Lemma agg_pres_trans a b c : agg_pres a b -> agg_pres b c -> agg_pres a c.
+  Proof. intros (A1 & A2 & A3) (B1 & B2 & B3). repeat split; try congruence. auto. Qed.
+
+  Lemma add_response_pres a i ap a' : add_response q n a i ap = Some a' -> agg_pres a a'.
+  Proof.
+    unfold add_response. destruct (negb (in_range n i)); [discriminate|]. destruct (lookb i (a_resps a)); [discriminate|].
+    intros H. inversion H; subst. repeat split; auto.
+  Qed.
+
+  Lemma add_response_quiet_pres a i ap : agg_pres a (add_response_quiet q n a i ap).
+  Proof.
+    unfold add_response_quiet. destruct (add_response q n a i ap) eqn:E; [eapply add_response_pres; exact E|apply agg_pres_refl].
+  Qed.
+
+  Lemma verify_justification_pres a i valid : agg_pres a (fst (verify_justification q n a i valid)).
+  Proof.
+    unfold verify_justification. destruct (negb (in_range n i)); [apply agg_pres_refl|].
+    destruct (lookb i (a_resps a)) as [[|]|]; try apply agg_pres_refl.
+    destruct valid; cbn [fst]; repeat split; auto.
+  Qed.
+
+  Lemma clean_verifiers_pres a : agg_pres a (clean_verifiers q n a).
+  Proof.
+    unfold clean_verifiers. generalize (seq 0 (Z.to_nat n)). intros l. revert a.
+    induction l as [|i l IH]; intros a; cbn [fold_left]; [apply agg_pres_refl|].
+    eapply agg_pres_trans; [|apply IH]. apply add_response_quiet_pres.
+  Qed.
+
+  (* a verifier record, once created, keeps its secret share and threshold, and stays bad once bad *)
+  Lemma step_ver_pres (s : rst q) k i a :
+    lookb i (r_ver s) = Some a -> exists a', lookb i (r_ver (rstep s k)) = Some a' /\ agg_pres a a'.
+  Proof.
+    intros L. unfold rstep, rabin_step.
+    assert (SAME : exists a', lookb i (r_ver s) = Some a' /\ agg_pres a a') by (exists a; split; [exact L|apply agg_pres_refl]).
+    destruct k as [dealer ok approved tv sec oe oa|dealer idx approved sid_ok sig_ok own_valid oe oj|dealer idx valid oe| |obs|obs|idx commits sid_ok sig_ok oe oc|obs].
+    - destruct (negb (in_range n dealer)); [exact SAME|].
+      destruct (lookb dealer (r_ver s)) eqn:LD; [exact SAME|]. destruct (negb ok); [exact SAME|]. cbn [fst r_ver].
+      assert (i <> dealer) by congruence. rewrite lookb_putb_other by assumption. exact SAME.
+    - destruct (lookb dealer (r_ver s)) as [a0|] eqn:LD; [|exact SAME].
+      destruct (negb sid_ok || negb (in_range n idx) || negb sig_ok); [exact SAME|].
+      destruct (add_response q n a0 idx approved) as [a1|] eqn:AR; [|exact SAME].
+      pose proof (add_response_pres _ _ _ _ AR) as P1.
+      assert (S1 : exists a', lookb i (putb dealer a1 (r_ver s)) = Some a' /\ agg_pres a a').
+      { rewrite lookb_putb. destruct (i =? dealer) eqn:E; [|exact SAME]. apply Z.eqb_eq in E. subst i.
+        rewrite L in LD. inversion LD; subst a0. exists a1. auto. }
+      destruct (negb (dealer =? me)); [exact S1|].
+      destruct (add_response q n (r_own s) idx approved) as [o'|]; [|exact S1].
+      destruct approved; [exact S1|].
+      pose proof (verify_justification_pres a1 idx own_valid) as P2.
+      destruct (verify_justification q n a1 idx own_valid) as [a2 okj]. cbn [fst] in P2. cbn [fst r_ver].
+      rewrite lookb_putb. destruct (i =? dealer) eqn:E.
+      + apply Z.eqb_eq in E. subst i. rewrite L in LD. inversion LD; subst a0. exists a2. split; [reflexivity|].
+        eapply agg_pres_trans; eassumption.
+      + rewrite lookb_putb, E. exact SAME.
+    - destruct (lookb dealer (r_ver s)) as [a0|] eqn:LD; [|exact SAME].
+      pose proof (verify_justification_pres a0 idx valid) as P2.
+      destruct (verify_justification q n a0 idx valid) as [a2 okj]. cbn [fst] in P2. cbn [fst r_ver].
+      rewrite lookb_putb. destruct (i =? dealer) eqn:E; [|exact SAME].
+      apply Z.eqb_eq in E. subst i. rewrite L in LD. inversion LD; subst a0. exists a2. auto.
+    - cbn [fst r_ver]. rewrite lookb_map_snd, L. cbn. eexists. split; [reflexivity|apply clean_verifiers_pres].
+    - exact SAME.
+    - destruct (deal_certified q n (r_own s)); [destruct obs|]; exact SAME.
+    - destruct (negb (in_range n idx)); [exact SAME|]. destruct (negb (in_qual q n s idx)); [exact SAME|].
+      destruct (negb sid_ok || negb sig_ok); [exact SAME|]. destruct (lookb idx (r_ver s)); [|exact SAME].
+      destruct (zeqb _ _); exact SAME.
+    - exact SAME.
+  Qed.
+
+  Lemma exec_ver_pres ks : forall (s : rst q) i a,
+    lookb i (r_ver s) = Some a -> exists a', lookb i (r_ver (rexec s ks)) = Some a' /\ agg_pres a a'.
+  Proof.
+    induction ks as [|k ks IH]; intros s i a L; cbn [rexec fold_left].
+    - exists a. split; [exact L|apply agg_pres_refl].
+    - destruct (step_ver_pres s k i a L) as (a1 & L1 & P1). destruct (IH _ _ _ L1) as (a2 & L2 & P2).
+      exists a2. split; [exact L2|eapply agg_pres_trans; eassumption].
+  Qed.
+
+  (* ---- stored secret commitments are valid for the share received from their dealer ---- *)
+  Definition commits_ok (s : rst q) : Prop :=
+    forall i p, i <> me -> lookb i (r_commits s) = Some p ->
+      exists a, lookb i (r_ver s) = Some a /\ peval q p (xof q me) = commit q (a_sec a).
+
+  Lemma commits_ok_ver (s s' : rst q) :
+    r_commits s' = r_commits s ->
+    (forall i a, lookb i (r_ver s) = Some a -> exists a', lookb i (r_ver s') = Some a' /\ agg_pres a a') ->
+    commits_ok s -> commits_ok s'.
+  Proof.
+    intros EC V H i p N L. rewrite EC in L. destruct (H i p N L) as (a & LA & E).
+    destruct (V i a LA) as (a' & LA' & (S & _)). exists a'. split; [exact LA'|]. rewrite S. exact E.
+  Qed.
+
+  (* ProcessSecretCommits stores the commitments of another dealer only after
+     checking them against the share received from that dealer; nothing else
+     writes them (SecretCommits stores the node's OWN commitments) *)
+  Theorem step_commits_ok (s : rst q) k : commits_ok s -> commits_ok (rstep s k).
+  Proof.
+    intros H.
+    assert (V : forall i a, lookb i (r_ver s) = Some a -> exists a', lookb i (r_ver (rstep s k)) = Some a' /\ agg_pres a a')
+      by (intros i a; apply step_ver_pres).
+    destruct k as [dealer ok approved tv sec oe oa|dealer idx approved sid_ok sig_ok own_valid oe oj|dealer idx valid oe| |obs|obs|idx commits sid_ok sig_ok oe oc|obs].
+    - apply (commits_ok_ver s); [|exact V|exact H].
+      unfold rstep, rabin_step. destruct (negb (in_range n dealer)); [reflexivity|].
+      destruct (lookb dealer (r_ver s)); [reflexivity|]. destruct (negb ok); reflexivity.
+    - apply (commits_ok_ver s); [|exact V|exact H].
+      unfold rstep, rabin_step. destruct (lookb dealer (r_ver s)) as [a0|]; [|reflexivity].
+      destruct (negb sid_ok || negb (in_range n idx) || negb sig_ok); [reflexivity|].
+      destruct (add_response q n a0 idx approved) as [a1|]; [|reflexivity].
+      destruct (negb (dealer =? me)); [reflexivity|].
+      destruct (add_response q n (r_own s) idx approved); [|reflexivity]. destruct approved; [reflexivity|].
+      destruct (verify_justification q n a1 idx own_valid). reflexivity.
+    - apply (commits_ok_ver s); [|exact V|exact H].
+      unfold rstep, rabin_step. destruct (lookb dealer (r_ver s)) as [a0|]; [|reflexivity].
+      destruct (verify_justification q n a0 idx valid). reflexivity.
+    - apply (commits_ok_ver s); [reflexivity|exact V|exact H].
+    - exact H.
+    - (* SecretCommits: own entry only *)
+      unfold rstep, rabin_step. destruct (deal_certified q n (r_own s)); [destruct obs as [p0|]|]; try exact H.
+      cbn [fst]. intros i p N L. cbn [r_commits] in L. rewrite lookb_putb_other in L by exact N. cbn [r_ver]. apply H; assumption.
+    - (* ProcessSecretCommits *)
+      unfold rstep, rabin_step. destruct (negb (in_range n idx)); [exact H|]. destruct (negb (in_qual q n s idx)); [exact H|].
+      destruct (negb sid_ok || negb sig_ok); [exact H|]. destruct (lookb idx (r_ver s)) as [a0|] eqn:LA; [|exact H].
+      destruct (zeqb (peval q commits (xof q me)) (commit q (a_sec a0))) eqn:CK; [|exact H].
+      apply zeqb_eq in CK. cbn [fst]. intros i p N L. cbn [r_commits r_ver] in *. rewrite lookb_putb in L.
+      destruct (i =? idx) eqn:E; [|apply H; assumption]. apply Z.eqb_eq in E. subst i. inversion L; subst p.
+      exists a0. auto.
+    - exact H.
+  Qed.
+
+  Theorem exec_commits_ok ks : forall s : rst q, commits_ok s -> commits_ok (rexec s ks).
+  Proof. induction ks as [|k ks IH]; intros s H; [exact H|]. cbn [rexec fold_left]. apply IH, step_commits_ok, H. Qed.
+
+  Lemma commits_ok_init : commits_ok (init_rst q t).
+  Proof. intros i p _ L. discriminate. Qed.
+
+  (* the share output at the end of a run lies on the output polynomial,
+     provided the node's own secret commitments are those of the polynomial it
+     dealt its own share from *)
+  Theorem rabin_share_on_polynomial ks p sh :
+    let s := rexec (init_rst q t) ks in
+    dist_key_share q n t s = Some (p, sh) ->
+    (In me (qual q n s) -> commit q (sec_of q s me) = peval q (com_of q s me) (xof q me)) ->
+    commit q sh = peval q p (xof q me).
+  Proof.
+    intros s H OWN. destruct (rabin_result_spec q n t me s p sh H) as (_ & EX & _ & _ & SP). apply SP.
+    intros i I. destruct (Z.eq_dec i me) as [->|N]; [apply OWN; exact I|].
+    destruct (EX i I) as (a & pc & LA & LC).
+    destruct (exec_commits_ok ks _ commits_ok_init i pc N LC) as (a' & LA' & E). fold s in LA'.
+    rewrite LA in LA'. inversion LA'; subst a'. unfold sec_of, com_of. rewrite LA, LC. symmetry. exact E.
+  Qed.
+
+  (* ---- complaints stay pending until they are validly justified ---- *)
+  Lemma in_del_pend d v d' v' l : In (d, v) l -> (d, v) <> (d', v') -> In (d, v) (del_pend d' v' l).
+  Proof.
+    intros I N. unfold del_pend. apply filter_In. split; [exact I|]. cbn [fst snd].
+    destruct (d =? d') eqn:E1; [|reflexivity]. destruct (v =? v') eqn:E2; [|reflexivity].
+    apply Z.eqb_eq in E1, E2. subst. contradiction.
+  Qed.
+
+  Definition justifies (d v : Z) (k : rcall q) : Prop := exists oe, k = RJust d v true oe.
+
+  Theorem step_pending_kept (s : rst q) k d v :
+    d <> me -> In (d, v) (r_pend s) -> ~ justifies d v k -> In (d, v) (r_pend (rstep s k)).
+  Proof.
+    intros NM I NJ. unfold rstep, rabin_step.
+    destruct k as [dealer ok approved tv sec oe oa|dealer idx approved sid_ok sig_ok own_valid oe oj|dealer idx valid oe| |obs|obs|idx commits sid_ok sig_ok oe oc|obs].
+    - destruct (negb (in_range n dealer)); [exact I|]. destruct (lookb dealer (r_ver s)); [exact I|]. destruct (negb ok); [exact I|].
+      cbn [fst r_pend]. destruct approved; [exact I|right; exact I].
+    - destruct (lookb dealer (r_ver s)) as [a0|]; [|exact I].
+      destruct (negb sid_ok || negb (in_range n idx) || negb sig_ok); [exact I|].
+      destruct (add_response q n a0 idx approved) as [a1|]; [|exact I].
+      assert (I1 : In (d, v) (if approved then r_pend s else add_pend dealer idx (r_pend s))) by (destruct approved; [exact I|right; exact I]).
+      destruct (negb (dealer =? me)); [exact I1|].
+      destruct (add_response q n (r_own s) idx approved); [|exact I1]. destruct approved; [exact I1|].
+      destruct (verify_justification q n a1 idx own_valid) as [a2 [|]]; cbn [fst r_pend]; [|exact I1].
+      apply in_del_pend; [exact I1|]. intros E. inversion E. congruence.
+    - destruct (lookb dealer (r_ver s)) as [a0|]; [|exact I].
+      destruct (verify_justification q n a0 idx valid) as [a2 okj] eqn:VJ. cbn [fst r_pend]. destruct okj; [|exact I].
+      apply in_del_pend; [exact I|]. intros E. inversion E; subst dealer idx.
+      assert (valid = true).
+      { unfold verify_justification in VJ. destruct (negb (in_range n v)); [inversion VJ|].
+        destruct (lookb v (a_resps a0)) as [[|]|]; try (inversion VJ; fail). destruct valid; [reflexivity|inversion VJ]. }
+      subst valid. apply NJ. exists oe. reflexivity.
+    - exact I.
+    - exact I.
+    - destruct (deal_certified q n (r_own s)); [destruct obs|]; exact I.
+    - destruct (negb (in_range n idx)); [exact I|]. destruct (negb (in_qual q n s idx)); [exact I|].
+      destruct (negb sid_ok || negb sig_ok); [exact I|]. destruct (lookb idx (r_ver s)); [|exact I]. destruct (zeqb _ _); exact I.
+    - exact I.
+  Qed.
+
+  (* a dealer with a complaint that no valid justification answers is out of
+     QUAL at the end, whatever else is processed (in particular a valid
+     justification of ANOTHER complaint against the same dealer does not help) *)
+  Theorem unjustified_dealer_disqualified ks : forall (s : rst q) d v,
+    d <> me -> In (d, v) (r_pend s) -> (forall k, In k ks -> ~ justifies d v k) ->
+    ~ In d (qual q n (rexec s ks)).
+  Proof.
+    induction ks as [|k ks IH]; intros s d v NM I NJ; cbn [rexec fold_left].
+    - eapply pending_complaint_disqualifies. exact I.
+    - apply (IH _ d v NM); [|intros k' I'; apply NJ; right; exact I'].
+      apply step_pending_kept; [exact NM|exact I|apply NJ; left; reflexivity].
+  Qed.
+
+  (* a recorded complaint about another dealer becomes pending *)
+  Theorem complaint_recorded (s : rst q) d v a oe oj :
+    d <> me -> lookb d (r_ver s) = Some a -> 0 <= v < n -> lookb v (a_resps a) = None ->
+    In (d, v) (r_pend (rstep s (RResp d v false true true true oe oj))).
+  Proof.
+    intros NM L R NR. unfold rstep, rabin_step. rewrite L. cbn [negb orb].
+    assert (IR : in_range n v = true) by (unfold in_range; apply andb_true_iff; split; [apply Z.leb_le|apply Z.ltb_lt]; lia).
+    rewrite IR. cbn [negb orb]. unfold add_response. rewrite IR, NR. cbn [negb].
+    destruct (d =? me) eqn:E; [apply Z.eqb_eq in E; contradiction|]. cbn [negb fst r_pend]. left. reflexivity.
+  Qed.
+
+  (* an invalid justification of a recorded complaint condemns the dealer for good *)
+  Theorem invalid_justification_disqualifies ks (s : rst q) d v a oe :
+    lookb d (r_ver s) = Some a -> 0 <= v < n -> lookb v (a_resps a) = Some false ->
+    ~ In d (qual q n (rexec (rstep s (RJust d v false oe)) ks)).
+  Proof.
+    intros L R C.
+    assert (B : exists a1, lookb d (r_ver (rstep s (RJust d v false oe))) = Some a1 /\ a_bad a1 = true).
+    { unfold rstep, rabin_step. rewrite L. unfold verify_justification.
+      assert (IR : in_range n v = true) by (unfold in_range; apply andb_true_iff; split; [apply Z.leb_le|apply Z.ltb_lt]; lia).
+      rewrite IR, C. cbn [negb fst r_ver]. rewrite lookb_putb_same. eexists. split; reflexivity. }
+    destruct B as (a1 & L1 & B1). destruct (exec_ver_pres ks _ _ _ L1) as (a2 & L2 & (_ & _ & B2)).
+    eapply bad_dealer_disqualified; [exact L2|auto].
+  Qed.
+End Run.
+
+(* ------------------------------------------------------------------ *)
+(* (5) order independence of the messages about OTHER dealers            *)
+Lemma fold_left_perm_equiv {S A K} (E : S -> S -> Prop) (Inv : S -> Prop) (f : S -> A -> S) (key : A -> K) (ok : A -> Prop) :
+  (forall s, E s s) -> (forall s1 s2 s3, E s1 s2 -> E s2 s3 -> E s1 s3) ->
+  (forall s a, ok a -> Inv s -> Inv (f s a)) ->
+  (forall s1 s2 a, ok a -> Inv s1 -> Inv s2 -> E s1 s2 -> E (f s1 a) (f s2 a)) ->
+  (forall s a b, ok a -> ok b -> Inv s -> key a <> key b -> E (f (f s a) b) (f (f s b) a)) ->
+  forall l l', Permutation l l' -> NoDup (map key l) -> (forall a, In a l -> ok a) ->
+  forall s1 s2, Inv s1 -> Inv s2 -> E s1 s2 -> E (fold_left f l s1) (fold_left f l' s2).
+Proof.
+  intros Er Et Ip Rs Cm l l' P. induction P; intros ND OK s1 s2 I1 I2 H.
+  - exact H.
+  - cbn. inversion ND; subst. apply IHP; auto.
+    + intros a I. apply OK. right. exact I.
+    + apply Ip; [apply OK; left; reflexivity|exact I1].
+    + apply Ip; [apply OK; left; reflexivity|exact I2].
+    + apply Rs; auto. apply OK. left. reflexivity.
+  - cbn. inversion ND as [|? ? N1 N2]; subst. inversion N2 as [|? ? N3 N4]; subst.
+    assert (Oy : ok y) by (apply OK; left; reflexivity). assert (Ox : ok x) by (apply OK; right; left; reflexivity).
+    assert (G : forall l0 sa sb, (forall a, In a l0 -> ok a) -> Inv sa -> Inv sb -> E sa sb -> E (fold_left f l0 sa) (fold_left f l0 sb)).
+    { induction l0 as [|a l0 IH]; intros sa sb O Ia Ib Hab; [exact Hab|]. cbn. apply IH.
+      - intros b Ib'. apply O. right. exact Ib'.
+      - apply Ip; [apply O; left; reflexivity|exact Ia].
+      - apply Ip; [apply O; left; reflexivity|exact Ib].
+      - apply Rs; auto. apply O. left. reflexivity. }
+    apply G.
+    + intros a I. apply OK. right. right. exact I.
+    + apply Ip; [exact Ox|apply Ip; [exact Oy|exact I1]].
+    + apply Ip; [exact Oy|apply Ip; [exact Ox|exact I2]].
+    + eapply Et; [apply Cm; auto|].
+      * intros Eq. apply N1. left. symmetry. exact Eq.
+      * apply Rs; [exact Oy|apply Ip; assumption|apply Ip; assumption|]. apply Rs; assumption.
+  - assert (ND' : NoDup (map key l')) by (eapply Permutation_NoDup; [apply Permutation_map; exact P1|exact ND]).
+    assert (OK' : forall a, In a l' -> ok a) by (intros a I; apply OK; eapply Permutation_in; [apply Permutation_sym; exact P1|exact I]).
+    eapply Et; [apply (IHP1 ND OK s1 s1 I1 I1 (Er s1))|]. apply IHP2; assumption.
+Qed.
+
+Section Order.
+  Variable q : Z.
+  Notation F := (zq q).
+  Variables n t me : Z.
+  Local Notation rstep := (rstep q n t me).
+  Local Notation rexec := (rexec q n t me).
+
+  Definition agg_equiv (a b : agg q) : Prop :=
+    Permutation (a_resps a) (a_resps b) /\ a_bad a = a_bad b /\ a_t a = a_t b /\ a_sec a = a_sec b.
+  Definition agg_wf (a : agg q) : Prop := NoDup (map fst (a_resps a)).
+
+  Definition ver_rel (x y : option (agg q)) : Prop :=
+    match x, y with Some a, Some b => agg_equiv a b | None, None => True | _, _ => False end.
+
+  (* equal up to the order in which responses, verifiers and complaints were recorded *)
+  Definition st_equiv (s1 s2 : rst q) : Prop :=
+    (forall d, ver_rel (lookb d (r_ver s1)) (lookb d (r_ver s2))) /\ r_own s1 = r_own s2 /\
+    (forall d, lookb d (r_commits s1) = lookb d (r_commits s2)) /\ Permutation (r_pend s1) (r_pend s2).
+  Definition st_wf (s : rst q) : Prop := forall d a, lookb d (r_ver s) = Some a -> agg_wf a.
+
+  Lemma agg_equiv_refl a : agg_equiv a a.
+  Proof. repeat split; reflexivity. Qed.
+  Lemma agg_equiv_trans a b c : agg_equiv a b -> agg_equiv b c -> agg_equiv a c.
+  Proof. intros (A1 & A2 & A3 & A4) (B1 & B2 & B3 & B4). repeat split; try congruence. etransitivity; eassumption. Qed.
+  Lemma st_equiv_refl s : st_equiv s s.
+  Proof. repeat split; try reflexivity. intros d. unfold ver_rel. destruct (lookb d (r_ver s)); [apply agg_equiv_refl|exact I]. Qed.
+  Lemma st_equiv_trans s1 s2 s3 : st_equiv s1 s2 -> st_equiv s2 s3 -> st_equiv s1 s3.
+  Proof.
+    intros (A1 & A2 & A3 & A4) (B1 & B2 & B3 & B4). repeat split; try congruence; [|etransitivity; eassumption].
+    intros d. specialize (A1 d). specialize (B1 d). unfold ver_rel in *.
+    destruct (lookb d (r_ver s1)), (lookb d (r_ver s2)), (lookb d (r_ver s3)); try contradiction; auto.
+    eapply agg_equiv_trans; eassumption.
+  Qed.
+
+  (* ---- aggregator operations respect the equivalence ---- *)
+  Lemma add_response_equiv a b i ap : agg_wf a -> agg_equiv a b ->
+    match add_response q n a i ap, add_response q n b i ap with
+    | Some a', Some b' => agg_equiv a' b'
+    | None, None => True
+    | _, _ => False
+    end.
+  Proof.
+    intros W (P & B & T & S). unfold add_response. destruct (negb (in_range n i)); [exact I|].
+    rewrite <- (lookb_perm i _ _ W P). destruct (lookb i (a_resps a)); [exact I|].
+    repeat split; cbn; auto. apply Permutation_app_tail. exact P.
+  Qed.
+
+  Lemma add_response_wf a i ap a' : agg_wf a -> add_response q n a i ap = Some a' -> agg_wf a'.
+  Proof.
+    unfold add_response, agg_wf. intros W. destruct (negb (in_range n i)); [discriminate|].
+    destruct (lookb i (a_resps a)) eqn:L; [discriminate|]. intros H. inversion H; subst. cbn [a_resps].
+    rewrite map_app. cbn [map fst]. eapply Permutation_NoDup; [apply Permutation_cons_append|].
+    constructor; [exact (lookb_none_notin _ _ L)|exact W].
+  Qed.
+
+  Lemma lookb_app {A} k : forall l l' : list (Z * A),
+    lookb k (l ++ l') = match lookb k l with Some v => Some v | None => lookb k l' end.
+  Proof. induction l as [|[x v] l IH]; intros l'; [reflexivity|]. cbn [app lookb]. destruct (x =? k); [reflexivity|apply IH]. Qed.
+
+  (* ---- a response about another dealer ---- *)
+  Definition resp3 (s : rst q) (d i : Z) (ap so sg : bool) : rst q :=
+    match lookb d (r_ver s) with
+    | None => s
+    | Some a =>
+        if negb so || negb (in_range n i) || negb sg then s
+        else match add_response q n a i ap with
+             | None => s
+             | Some a' => mkrst (putb d a' (r_ver s)) (r_own s) (r_commits s)
+                                (if ap then r_pend s else add_pend d i (r_pend s))
+             end
+    end.
+
+  Lemma rstep_resp_other s d i ap so sg ov oe oj : d <> me -> rstep s (RResp d i ap so sg ov oe oj) = resp3 s d i ap so sg.
+  Proof.
+    intros N. unfold RabinProofs.rstep, rabin_step, resp3. destruct (lookb d (r_ver s)) as [a|]; [|reflexivity].
+    destruct (negb so || negb (in_range n i) || negb sg); [reflexivity|].
+    destruct (add_response q n a i ap); [|reflexivity].
+    destruct (d =? me) eqn:E; [apply Z.eqb_eq in E; contradiction|]. reflexivity.
+  Qed.
+
+  Lemma resp3_wf s d i ap so sg : st_wf s -> st_wf (resp3 s d i ap so sg).
+  Proof.
+    intros W. unfold resp3. destruct (lookb d (r_ver s)) as [a|] eqn:L; [|exact W].
+    destruct (negb so || negb (in_range n i) || negb sg); [exact W|].
+    destruct (add_response q n a i ap) as [a'|] eqn:AR; [|exact W].
+    intros d' b. cbn [r_ver]. rewrite lookb_putb. destruct (d' =? d); [|apply W].
+    intros H. inversion H; subst b. eapply add_response_wf; [apply (W d a L)|exact AR].
+  Qed.
+
+  Lemma resp3_respects s1 s2 d i ap so sg :
+    st_wf s1 -> st_wf s2 -> st_equiv s1 s2 -> st_equiv (resp3 s1 d i ap so sg) (resp3 s2 d i ap so sg).
+  Proof.
+    intros W1 W2 E. pose proof E as (EV & EO & EC & EP). unfold resp3.
+    pose proof (EV d) as Vd. unfold ver_rel in Vd.
+    destruct (lookb d (r_ver s1)) as [a|] eqn:L1, (lookb d (r_ver s2)) as [b|] eqn:L2; try contradiction; [|exact E].
+    destruct (negb so || negb (in_range n i) || negb sg); [exact E|].
+    pose proof (add_response_equiv a b i ap (W1 d a L1) Vd) as AE.
+    destruct (add_response q n a i ap) as [a'|], (add_response q n b i ap) as [b'|]; try contradiction; [|exact E].
+    repeat split; cbn [r_ver r_own r_commits r_pend]; auto.
+    - intros d'. rewrite !lookb_putb. destruct (d' =? d); [exact AE|apply EV].
+    - destruct ap; [exact EP|]. unfold add_pend. constructor. exact EP.
+  Qed.
+
+  Lemma add_response_other_idx a i1 ap1 a1 i2 ap2 : i1 <> i2 -> add_response q n a i1 ap1 = Some a1 ->
+    add_response q n a1 i2 ap2 =
+    match add_response q n a i2 ap2 with
+    | Some _ => Some (mkagg ((a_resps a ++ [(i1, ap1)]) ++ [(i2, ap2)]) (a_bad a) (a_t a) (a_sec a))
+    | None => None
+    end.
+  Proof.
+    intros N H. unfold add_response in *. destruct (negb (in_range n i1)); [discriminate|].
+    destruct (lookb i1 (a_resps a)); [discriminate|]. inversion H; subst a1. cbn [a_resps a_bad a_t a_sec].
+    destruct (negb (in_range n i2)); [reflexivity|]. rewrite lookb_app. destruct (lookb i2 (a_resps a)); [reflexivity|].
+    cbn [lookb]. destruct (i1 =? i2) eqn:E; [apply Z.eqb_eq in E; contradiction|]. reflexivity.
+  Qed.
+
+  Lemma add_response_resps a i ap a' : add_response q n a i ap = Some a' ->
+    a' = mkagg (a_resps a ++ [(i, ap)]) (a_bad a) (a_t a) (a_sec a).
+  Proof.
+    unfold add_response. destruct (negb (in_range n i)); [discriminate|]. destruct (lookb i (a_resps a)); [discriminate|].
+    intros H. inversion H. reflexivity.
+  Qed.
+
+  Lemma perm_pend_swap (c1 c2 : bool) (x y : Z * Z) (l : list (Z * Z)) :
+    Permutation (if c2 then (if c1 then l else x :: l) else y :: (if c1 then l else x :: l))
+                (if c1 then (if c2 then l else y :: l) else x :: (if c2 then l else y :: l)).
+  Proof. destruct c1, c2; try reflexivity. apply perm_swap. Qed.
+
+  Lemma resp3_none s d i ap so sg : lookb d (r_ver s) = None -> resp3 s d i ap so sg = s.
+  Proof. intros L. unfold resp3. rewrite L. reflexivity. Qed.
+  Lemma resp3_bad s d i ap so sg : negb so || negb (in_range n i) || negb sg = true -> resp3 s d i ap so sg = s.
+  Proof. intros B. unfold resp3. rewrite B. destruct (lookb d (r_ver s)); reflexivity. Qed.
+  Lemma resp3_addnone s d i ap so sg a : lookb d (r_ver s) = Some a -> add_response q n a i ap = None -> resp3 s d i ap so sg = s.
+  Proof. intros L A. unfold resp3. rewrite L, A. destruct (negb so || negb (in_range n i) || negb sg); reflexivity. Qed.
+  Lemma resp3_some s d i ap so sg a a' : lookb d (r_ver s) = Some a -> negb so || negb (in_range n i) || negb sg = false ->
+    add_response q n a i ap = Some a' ->
+    resp3 s d i ap so sg = mkrst (putb d a' (r_ver s)) (r_own s) (r_commits s) (if ap then r_pend s else add_pend d i (r_pend s)).
+  Proof. intros L B A. unfold resp3. rewrite L, B, A. reflexivity. Qed.
+
+  Lemma resp3_commute s d1 i1 ap1 so1 sg1 d2 i2 ap2 so2 sg2 :
+    st_wf s -> (d1, i1) <> (d2, i2) ->
+    st_equiv (resp3 (resp3 s d1 i1 ap1 so1 sg1) d2 i2 ap2 so2 sg2) (resp3 (resp3 s d2 i2 ap2 so2 sg2) d1 i1 ap1 so1 sg1).
+  Proof.
+    intros W NE.
+    destruct (Z.eq_dec d1 d2) as [ED|ND].
+    - subst d2. assert (NI : i1 <> i2) by congruence.
+      destruct (lookb d1 (r_ver s)) as [a|] eqn:L; [|rewrite !(resp3_none s) by exact L; apply st_equiv_refl].
+      destruct (negb so1 || negb (in_range n i1) || negb sg1) eqn:B1.
+      { rewrite (resp3_bad s d1 i1) by exact B1. rewrite (resp3_bad _ d1 i1) by exact B1. apply st_equiv_refl. }
+      destruct (negb so2 || negb (in_range n i2) || negb sg2) eqn:B2.
+      { rewrite (resp3_bad s d1 i2) by exact B2. rewrite (resp3_bad _ d1 i2) by exact B2. apply st_equiv_refl. }
+      destruct (add_response q n a i1 ap1) as [a1|] eqn:A1, (add_response q n a i2 ap2) as [a2|] eqn:A2.
+      + rewrite (resp3_some s d1 i1 ap1 so1 sg1 a a1 L B1 A1), (resp3_some s d1 i2 ap2 so2 sg2 a a2 L B2 A2).
+        erewrite (resp3_some _ d1 i2 ap2 so2 sg2 a1); [|cbn [r_ver]; apply lookb_putb_same|exact B2|
+          rewrite (add_response_other_idx a i1 ap1 a1 i2 ap2 NI A1), A2; reflexivity].
+        erewrite (resp3_some _ d1 i1 ap1 so1 sg1 a2); [|cbn [r_ver]; apply lookb_putb_same|exact B1|
+          rewrite (add_response_other_idx a i2 ap2 a2 i1 ap1 (not_eq_sym NI) A2), A1; reflexivity].
+        repeat split; cbn [r_ver r_own r_commits r_pend]; auto.
+        * intros d. rewrite !lookb_putb. destruct (d =? d1).
+          -- repeat split; cbn; auto. rewrite <- !app_assoc. apply Permutation_app_head. apply perm_swap.
+          -- unfold ver_rel. destruct (lookb d (r_ver s)); [apply agg_equiv_refl|exact I].
+        * unfold add_pend. apply perm_pend_swap.
+      + rewrite (resp3_addnone s d1 i2 ap2 so2 sg2 a L A2). rewrite !(resp3_some s d1 i1 ap1 so1 sg1 a a1 L B1 A1).
+        rewrite (resp3_addnone _ d1 i2 ap2 so2 sg2 a1); [apply st_equiv_refl|cbn [r_ver]; apply lookb_putb_same|].
+        rewrite (add_response_other_idx a i1 ap1 a1 i2 ap2 NI A1), A2. reflexivity.
+      + rewrite (resp3_addnone s d1 i1 ap1 so1 sg1 a L A1). rewrite !(resp3_some s d1 i2 ap2 so2 sg2 a a2 L B2 A2).
+        rewrite (resp3_addnone _ d1 i1 ap1 so1 sg1 a2); [apply st_equiv_refl|cbn [r_ver]; apply lookb_putb_same|].
+        rewrite (add_response_other_idx a i2 ap2 a2 i1 ap1 (not_eq_sym NI) A2), A1. reflexivity.
+      + rewrite (resp3_addnone s d1 i1 ap1 so1 sg1 a L A1), !(resp3_addnone s d1 i2 ap2 so2 sg2 a L A2).
+        rewrite (resp3_addnone s d1 i1 ap1 so1 sg1 a L A1). apply st_equiv_refl.
+    - (* different dealers: different records *)
+      assert (K : forall (s0 : rst q) d i ap so sg d', d' <> d -> lookb d' (r_ver (resp3 s0 d i ap so sg)) = lookb d' (r_ver s0)).
+      { intros s0 d i ap so sg d' N. unfold resp3. destruct (lookb d (r_ver s0)); [|reflexivity].
+        destruct (negb so || negb (in_range n i) || negb sg); [reflexivity|]. destruct (add_response q n _ i ap); [|reflexivity].
+        cbn [r_ver]. apply lookb_putb_other. exact N. }
+      unfold resp3 at 1 3. rewrite (K s d1 i1 ap1 so1 sg1 d2 (not_eq_sym ND)), (K s d2 i2 ap2 so2 sg2 d1 ND).
+      unfold resp3.
+      destruct (lookb d1 (r_ver s)) as [a|] eqn:L1, (lookb d2 (r_ver s)) as [b|] eqn:L2; try apply st_equiv_refl.
+      destruct (negb so1 || negb (in_range n i1) || negb sg1), (negb so2 || negb (in_range n i2) || negb sg2); try apply st_equiv_refl.
+      destruct (add_response q n a i1 ap1) as [a1|], (add_response q n b i2 ap2) as [b2|]; try apply st_equiv_refl.
+      repeat split; cbn [r_ver r_own r_commits r_pend]; auto.
+      + intros d. rewrite !lookb_putb. destruct (d =? d1) eqn:E1, (d =? d2) eqn:E2; unfold ver_rel.
+        * apply Z.eqb_eq in E1, E2. congruence.
+        * apply agg_equiv_refl.
+        * apply agg_equiv_refl.
+        * destruct (lookb d (r_ver s)); [apply agg_equiv_refl|exact I].
+      + unfold add_pend. apply perm_pend_swap.
+  Qed.
+
+  (* ---- QUAL and the commitment polynomial respect the equivalence ---- *)
+  Lemma deal_certified_equiv a b : agg_wf a -> agg_equiv a b -> deal_certified q n a = deal_certified q n b.
+  Proof.
+    intros W (P & B & T & S).
+    assert (EA : approvals q a = approvals q b).
+    { unfold approvals. f_equal. apply Permutation_length.
+      clear -P. induction P; cbn; auto; [destruct (snd x); auto|destruct (snd x), (snd y); auto; apply perm_swap|etransitivity; eassumption]. }
+    assert (ER : all_responded q n a = all_responded q n b).
+    { unfold all_responded. generalize (seq 0 (Z.to_nat n)). induction l as [|k l IH]; [reflexivity|]. cbn [forallb].
+      rewrite IH, (lookb_perm (Z.of_nat k) _ _ W P). reflexivity. }
+    unfold deal_certified, enough_approvals. rewrite EA, ER, B, T. reflexivity.
+  Qed.
+
+  Lemma has_pend_perm d (l1 l2 : list (Z * Z)) : Permutation l1 l2 -> has_pend d l1 = has_pend d l2.
+  Proof.
+    unfold has_pend. induction 1; cbn; auto; [congruence|destruct (fst x =? d), (fst y =? d); reflexivity|congruence].
+  Qed.
+
+  Theorem qual_equiv s1 s2 : st_wf s1 -> st_equiv s1 s2 -> qual q n s1 = qual q n s2.
+  Proof.
+    intros W (EV & _ & _ & EP). rewrite !qual_filter. apply filter_ext. intros i.
+    specialize (EV i). unfold ver_rel in EV. rewrite (has_pend_perm i _ _ EP).
+    destruct (lookb i (r_ver s1)) as [a|] eqn:L, (lookb i (r_ver s2)) as [b|]; try contradiction; [|reflexivity].
+    rewrite (deal_certified_equiv a b (W i a L) EV). reflexivity.
+  Qed.
+
+  Lemma init_wf : st_wf (init_rst q t).
+  Proof. intros d a L. discriminate. Qed.
+
+  (* RESPONSE PHASE.  Responses about other dealers with pairwise distinct
+     (dealer, verifier) - nobody equivocates - can be processed in any order:
+     the states are equal up to the order of the records, so QUAL is the same
+     (and, the stored commitments being untouched, so is the final polynomial) *)
+  Definition is_resp3 (k : rcall q) : Prop :=
+    match k with RResp d _ _ _ _ _ _ _ => d <> me | _ => False end.
+  Definition rkey (k : rcall q) : Z * Z :=
+    match k with RResp d i _ _ _ _ _ _ => (d, i) | RJust d i _ _ => (d, i) | _ => (-1, -1) end.
+
+  Theorem responses_order_independent (ks ks' : list (rcall q)) (s : rst q) :
+    Permutation ks ks' -> NoDup (map rkey ks) -> (forall k, In k ks -> is_resp3 k) -> st_wf s ->
+    st_equiv (rexec s ks) (rexec s ks') /\ qual q n (rexec s ks) = qual q n (rexec s ks') /\
+    (forall d, lookb d (r_commits (rexec s ks)) = lookb d (r_commits (rexec s ks'))).
+  Proof.
+    intros P ND OK W.
+    assert (INV : forall l s0, (forall k, In k l -> is_resp3 k) -> st_wf s0 -> st_wf (rexec s0 l)).
+    { induction l as [|k l IH]; intros s0 O W0; [exact W0|]. cbn [RabinProofs.rexec fold_left]. apply IH.
+      - intros k' I. apply O. right. exact I.
+      - pose proof (O k (or_introl eq_refl)) as Ok. destruct k; try contradiction. cbn in Ok.
+        change (st_wf (rstep s0 (RResp dealer idx approved sid_ok sig_ok own_valid obs_err obs_just))).
+        rewrite rstep_resp_other by exact Ok. apply resp3_wf. exact W0. }
+    assert (E : st_equiv (rexec s ks) (rexec s ks')).
+    { unfold RabinProofs.rexec.
+      apply (fold_left_perm_equiv st_equiv st_wf (RabinProofs.rstep q n t me) rkey is_resp3); auto.
+      - apply st_equiv_refl.
+      - apply st_equiv_trans.
+      - intros s0 k Ok W0. destruct k; try contradiction. cbn in Ok. rewrite rstep_resp_other by exact Ok. apply resp3_wf. exact W0.
+      - intros s1 s2 k Ok W1 W2 E. destruct k; try contradiction. cbn in Ok. rewrite !rstep_resp_other by exact Ok.
+        apply resp3_respects; assumption.
+      - intros s0 a b Oa Ob W0 NK. destruct a; try contradiction. destruct b; try contradiction. cbn in Oa, Ob, NK.
+        rewrite !rstep_resp_other by assumption. apply resp3_commute; assumption.
+      - apply st_equiv_refl. }
+    split; [exact E|]. split; [apply qual_equiv; [apply INV; assumption|exact E]|]. destruct E as (_ & _ & EC & _). exact EC.
+  Qed.
+End Order.
